@@ -188,9 +188,9 @@ U(id="ev.selfpipe.handle", props=["C20"], **{"class": "bounded"},
   **HANDLE, **POST)
 U(id="ev.selfpipe.handle.burst", props=["C20"], **{"class": "bounded"},
   clause="janet_ev_handle_selfpipe drains the self-pipe completely even for a burst of events (the pipe is registered edge-triggered, so events left behind would never be reported again): it returns only after a read found the pipe empty, every event handled exactly once",
-  entry="h_handle", assumes=[A_ATOMIC, A_PIPE, "every queued event carries a non-NULL callback"],
+  entry="h_handle_burst", assumes=[A_ATOMIC, A_PIPE, "every queued event carries a non-NULL callback"],
   mutants=[{"name": "bounded-batch", "file": "ev.c", "find": "recur:\n    do {\n        status = read(janet_vm.selfpipe[0], &response, sizeof(response));\n    } while (status == -1 && errno == EINTR);\n    if (status > 0) {", "replace": "    int batch = 0;\nrecur:\n    if (batch++ >= 32) return;\n    do {\n        status = read(janet_vm.selfpipe[0], &response, sizeof(response));\n    } while (status == -1 && errno == EINTR);\n    if (status > 0) {", "expect": "drained"}],
-  **dict(HANDLE, defines=["-DEV_K=40", "-DEV_EINTR=0", "-DEV_EXACT"], unwind=44, bound="a burst of exactly 40 queued events, no EINTR (unwinding assertions hold for unwind 44)"), **POST)
+  **dict(HANDLE, defines=["-DEV_K=40", "-DEV_BURST=40"], unwind=44, bound="a burst of exactly 40 queued events, no EINTR (unwinding assertions hold for unwind 44)"), **dict(POST, harness=["ev_post.c", "ev_post_burst.c"]))
 U(id="ev.selfpipe.pair.nullcb", props=["C20"], tier="thorough", **{"class": "bounded"},
   disabled_reason="GENUINE DEFECT (C API, reproduced with a C program against libjanet, see harness/ev_post.c): janet_ev_post_event takes a pending-work count for every event, janet_ev_handle_selfpipe releases it only when cb != NULL; janet_loop1_interrupt posts cb == NULL, so each call leaks one count and janet_loop() never returns after all tasks have finished. Not reachable from Janet code (no core function calls janet_loop1_interrupt).",
   clause="every event posted to the self-pipe - with or without callback - releases the pending-work count its post took",
